@@ -29,7 +29,15 @@ ASSUMPTIONS = [
 def make_case(seed, shard_index, i):
     rng = rng_for(seed, "c08", shard_index, i)
     t = gasm.pick_texel(rng)
-    inp, labels = gasm.gen_input(rng, t, mode=rng.choice(["fasta", "tpf", "tpf"]), strands=rng.choice([(1,), (1, -1)]))
+    hapnames = rng.random() < 0.15
+    inp, labels = gasm.gen_input(rng, t, mode="fasta" if hapnames else rng.choice(["fasta", "tpf", "tpf"]), strands=rng.choice([(1,), (1, -1)]))
+    if hapnames:
+        # a single-haplotype assembly whose names carry the haplotype prefix, some with more than three parts
+        for k, s_ in enumerate(inp):
+            nm = rng.choice([f"HAP1_SCAFFOLD_{k + 1}", f"HAP1_SUPER_{k + 1}_unloc_1", f"HAP1_scaffold_x_{k + 1}", f"HAP1_ptg{k}l_{k + 1}"])
+            s_[0] = nm
+            s_[1] = [["F", nm, r[2], r[3], r[4], []] if r[0] == "F" else r for r in s_[1]]
+        labels.add("null:haplotype-prefixed-names")
     need = math.ceil(t) + 2
     for s in inp:
         r = s[1][-1]
@@ -42,7 +50,7 @@ def make_case(seed, shard_index, i):
         L = rng.randint(1, max(1, math.ceil(t) - 1))
         if L >= t:
             continue
-        nm = f"tiny_{k + 1}"
+        nm = f"tiny_{k + 1}" if not hapnames else f"HAP1_tiny_{k + 1}"
         # 1-3 contigs, abutting without a gap row or separated by small gaps, total length L < t
         rows = []
         left = L
@@ -57,7 +65,7 @@ def make_case(seed, shard_index, i):
                 rows.append(["G", g, rng.choice(["scaffold", "contig"])])
                 ln -= g
                 left -= g
-            rows.append(["F", f"tctg{k}.{j}", off + 1, off + ln, rng.choice([1, -1]), []])
+            rows.append(["F", f"tctg{k}.{j}" if not hapnames else nm, off + 1, off + ln, rng.choice([1, -1]) if not hapnames else 1, []])
             off += ln + rng.choice([0, 0, 5])
             left -= ln
         if len([r for r in rows if r[0] == "F"]) > 1:
@@ -93,7 +101,7 @@ def make_case(seed, shard_index, i):
     if not pt:
         return None
     return {"kind": "remap", "gen": "null", "t": t, "input": inp, "pretext": pt, "pieces": pieces, "prefix": prefix,
-            "painted": painted, "labels": sorted(labels), "via_text": rng.random() < 0.15, "id": [seed, shard_index, i]}
+            "painted": painted, "hapnames": hapnames, "labels": sorted(labels), "via_text": rng.random() < 0.15, "id": [seed, shard_index, i]}
 
 
 def oracle(case, outcome, ctx):
@@ -109,7 +117,12 @@ def oracle(case, outcome, ctx):
         ctx.nontrivial([inp, case["pretext"], case["t"]])
     out = outcome["out"]
     keys = [k for k, _ in out]
-    if keys != [None]:
+    if case.get("hapnames"):
+        # every name starts with HAP1_: the one output assembly is that haplotype's
+        if len(keys) != 1 or str(keys[0]).lower() != "hap1":
+            ctx.violation("haplotype-prefixed-input-split-over-assemblies", f"assembly keys {keys}\n{desc}", stripped)
+            return
+    elif keys != [None]:
         ctx.violation("other-output-assembly-produced", f"assembly keys {keys}\n{desc}\noutput={out}", stripped)
         return
     st = outcome["stats"]
@@ -195,6 +208,7 @@ def gates(c, tier):
         "label:null:subtexel-absent": 100,
         "label:null:subtexel-present": 100,
         "label:null:non-default-prefix": 200,
+        "label:null:haplotype-prefixed-names": 300,
         "label:null:subtexel-multi-contig": 50,
         "label:in:both-strands": 500,
         "label:in:gapless-junction": 300,
